@@ -115,7 +115,7 @@ fn cmd_io(m: &HashMap<String, String>) -> i32 {
                 .set("of", J::u(of))
                 .set("after_sweep", J::Bool(source == "search" && do_sweep)),
         );
-        if let Err(e) = std::fs::write(path, rj.pretty()) {
+        if let Err(e) = std::fs::write(path, util::with_knob(rj).pretty()) {
             harness_error(&format!("cannot write {}: {}", path, e));
         }
         return 0;
@@ -214,7 +214,7 @@ fn cmd_io(m: &HashMap<String, String>) -> i32 {
         let _ = std::fs::create_dir_all(&replay_dir);
         let path = format!("{}/{}-{}-{}{}.json", replay_dir, property, seed, if source == "sweep" { "sweep" } else { "run" }, idx);
         let rj = io_run::replay_json(&property, seed, idx, &source, &minp, &plan, &minv, &r.log);
-        if let Err(e) = std::fs::write(&path, rj.pretty()) {
+        if let Err(e) = std::fs::write(&path, util::with_knob(rj).pretty()) {
             harness_error(&format!("cannot write {}: {}", path, e));
         }
         // the minimised plan must fail the same way in a fresh process
@@ -242,7 +242,7 @@ fn cmd_io(m: &HashMap<String, String>) -> i32 {
                         .set("of", J::u(of))
                         .set("after_sweep", J::Bool(after_sweep)),
                 );
-                if std::fs::write(&path, rj2.pretty()).is_ok() {
+                if std::fs::write(&path, util::with_knob(rj2).pretty()).is_ok() {
                     let st = std::process::Command::new(&exe).arg("replay").arg(&path).arg("--quiet").status();
                     if matches!(st.as_ref().map(|s| s.code()), Ok(Some(1))) {
                         reproduced = true;
@@ -273,6 +273,7 @@ fn cmd_io(m: &HashMap<String, String>) -> i32 {
         }
     }
     res.put("violations", J::u(total_violations));
+    res.put("probe_thread_local_already_destroyed_in_exit_destructor", J::u(io_run::TLS_GONE.load(std::sync::atomic::Ordering::Relaxed)));
     res.put("wall_s", J::Num(t0.elapsed().as_secs_f64()));
     if let Some(hp) = hashes_out {
         // raw little-endian u64s: for each batch (sweep, search): count, all plan hashes, count, non-trivial ones
@@ -289,6 +290,7 @@ fn cmd_io(m: &HashMap<String, String>) -> i32 {
             harness_error(&format!("cannot write {}: {}", hp, e));
         }
     }
+    let res = util::with_knob(res);
     if let Err(e) = std::fs::write(&out, res.pretty()) {
         harness_error(&format!("cannot write {}: {}", out, e));
     }
@@ -310,6 +312,12 @@ fn cmd_replay(m: &HashMap<String, String>) -> i32 {
         Ok(j) => j,
         Err(e) => harness_error(&format!("{}: {}", path, e)),
     };
+    if let Some(c) = j.get("cpus").and_then(|c| c.as_arr()) {
+        // the run that wrote this file was confined to these CPUs
+        if c.len() == 2 {
+            util::set_cpu_knob(c[0].as_usize().unwrap_or(0), c[1].as_usize().unwrap_or(0));
+        }
+    }
     let engine = j.get("engine").and_then(|e| e.as_str()).unwrap_or("");
     let property = j.get("property").and_then(|e| e.as_str()).unwrap_or("?").to_string();
     match engine {
@@ -384,6 +392,9 @@ fn main() {
         harness_error("usage: pp-sim <io|sched|replay> ...");
     }
     let m = args_map(&args[1..]);
+    if m.contains_key("cpus") {
+        util::set_cpu_knob(geti(&m, "cpu-first", 0) as usize, geti(&m, "cpus", 0) as usize);
+    }
     let code = match args[0].as_str() {
         "io" => cmd_io(&m),
         "replay" => cmd_replay(&m),
